@@ -809,7 +809,14 @@ func runScenario(sc *scenario) *outcome {
 				r.caller, r.call = ci, k
 				r.payload = queryPayload(sc.id, ci, k, q.size)
 				r.start = time.Now()
-				r.resp, r.err = o.cl.Request(context.Background(), r.payload)
+				// every second caller brings a context with a deadline of its own, far later than the client's
+				// per-request timeout: the call is still bounded by the client timeout
+				ctx, cancel := context.Background(), context.CancelFunc(func() {})
+				if ci%2 == 1 {
+					ctx, cancel = context.WithTimeout(context.Background(), sc.timeout+45*time.Second)
+				}
+				r.resp, r.err = o.cl.Request(ctx, r.payload)
+				cancel()
 				r.end = time.Now()
 			}
 		}(ci, script, o.calls[idx:idx+len(script)])
@@ -1207,7 +1214,57 @@ var batchCheck = &core.Check{Name: "c12/batch", Quick: 6, Thorough: 190, Fn: fun
 	return nil
 }}
 
+// c12/long-outage: after a server-side close the server stays unreachable for 12..16 redials (each redial
+// is reset at once; the client retries about once per second), then serves again. The client must come
+// back by itself and later calls must succeed. One scenario per case; real time dominates (20-40 s).
+var outageCheck = &core.Check{Name: "c12/long-outage", Quick: 1, Thorough: 24, Fn: func(c *core.Ctx) error {
+	sc := &scenario{id: 9000 + c.Intn("id", 1000), keySeed: c.U64("keyseed"), workers: c.Range("connections", 1, 2)}
+	sc.timeout = time.Duration(c.OneOf("timeout.ms", 500, 1000)) * time.Millisecond
+	callers := c.Range("callers", 2, 8)
+	for i := 0; i < callers; i++ {
+		sc.calls = append(sc.calls, expandCaller(c.U64("caller.seed"), 3, sc.timeout, false))
+	}
+	sc.closes = []closeFault{{atQuery: c.Range("close.at", 1, callers*3), rst: c.Bool("close.rst")}}
+	// the client retries every connection about once per second and the redial plans are shared by all
+	// connections of the client: 12..16 refusals per connection keep each of them out for 12..16 s
+	for i, n := 0, sc.workers*c.Range("outage.redials", 12, 16); i < n; i++ {
+		sc.redial = append(sc.redial, adnlsrv.DialPlan{Kind: adnlsrv.DialReset})
+	}
+	c.Note("scenario", sc.String())
+	c.NonTrivial(sc.String())
+	c.Class(fmt.Sprintf("outage of %d refused redials", len(sc.redial)))
+	c.Checkpoint()
+	var o *outcome
+	if err := core.Protect(func() error { o = runScenario(sc); return nil }); err != nil {
+		return err
+	}
+	totalScenarios.Add(1)
+	totalCalls.Add(int64(len(o.calls)))
+	if v := o.judge(c); v != "" {
+		if isAuthNonceDeadlock(v) && c.Known(knownAuthNonceDeadlock) {
+			return nil
+		}
+		var sb strings.Builder
+		fmt.Fprintf(&sb, "%s\n  %v", v, sc)
+		for _, s := range o.notes {
+			fmt.Fprintf(&sb, "\n  note: %s", s)
+		}
+		if o.st != nil {
+			ev := o.st.srv.Events()
+			if len(ev) > 40 {
+				ev = ev[len(ev)-40:]
+			}
+			for _, e := range ev {
+				fmt.Fprintf(&sb, "\n  server %s dial %d: %s", e.At.Format("15:04:05.000"), e.Dial, e.What)
+			}
+		}
+		return fmt.Errorf("%s", sb.String())
+	}
+	return nil
+}}
+
 func TestProp(t *testing.T) {
+	t.Run("long-outage", func(t *testing.T) { core.Run(t, outageCheck) })
 	t.Run("batch", func(t *testing.T) {
 		core.Run(t, batchCheck)
 		core.Extra(batchCheck.Name, "scenarios", totalScenarios.Load())
@@ -1216,4 +1273,4 @@ func TestProp(t *testing.T) {
 	})
 }
 
-func TestReplay(t *testing.T) { core.Replay(t, batchCheck) }
+func TestReplay(t *testing.T) { core.Replay(t, batchCheck, outageCheck) }
